@@ -178,7 +178,7 @@ def _same_worker(FA, f, ret, base, spec):
 def rule_PF(facts):
     FA = facts['default']
     out = []
-    props = ['C09']
+    props = ['C09', 'C10']    # rank_prefetch(_unchecked) is also a checked / unchecked twin of rank: a fault on the prefetch path separates them
     # (a) rank_prefetch_unchecked returns exactly rank_unchecked(self, symbol, i)
     n_a = 0
     for base in ('quadwt::QWaveletTree', 'quadwt::huffqwt::HuffQWaveletTree'):
@@ -327,7 +327,13 @@ def rule_PF(facts):
                 base, c = _affine(a)
                 if base[0] == 'bin' and base[1] in ('Shr', 'Div'):
                     rplus.append((c, t['line']))
-        if not woff or not rplus:
+        # the writer pushes `true` for a block that holds a sampled occurrence: the reader counts ONES of the sample vector
+        zero_reads = [t for bi, t in R2.calls() if t['f']['fn']['name'] in ('rank0', 'rank0_unchecked', 'n_zeros', 'select0') and len(t['args']) >= 1
+                      and any(isinstance(z, tuple) and z[:2] == ('field', ('param', 'self')) for z in subterms(norm(R2.operand_term(t['args'][0]))))]
+        if zero_reads and not rplus:
+            out.append(Inst('R-PF', key + '|ones', 'violation', zero_reads[0].get('line', ''),
+                            'approx_rank_unchecked asks the sample vector for `%s`: the constructor marks sampled blocks with ONE bits, so the estimate is the number of blocks WITHOUT a sampled occurrence (it exceeds the level length and the unchecked paths that take it unwrap)' % zero_reads[0]['f']['fn']['name'], props_e))
+        elif not woff or not rplus:
             out.append(Inst('R-PF', key, 'violation', pw['span'], 'chunk-closing test `index %% rate` or reader `rank1((i >> shift) + c)` not found (anchor lost)', props_e))
         elif all(c == 0 for c, _ in woff) and all(c == 1 for c, _ in rplus):
             out.append(Inst('R-PF', key, 'ok', woff[0][1], 'writer closes a chunk at index %% rate == 0 (0-based); reader ranks (i >> shift) + 1 sample bits', props_e,
@@ -339,6 +345,41 @@ def rule_PF(facts):
             out.append(Inst('R-PF', key, 'violation', woff[0][1],
                             'writer closes chunks at (index %+d) %% rate == 0 and the reader ranks (i >> shift) %+d bits and unwraps: the sample vector can be one bit short (panic on a position at a chunk boundary)' % (
                                 woff[0][0], rplus[0][0]), props_e, sample={'writer_offset': [c for c, _ in woff], 'reader_plus': [c for c, _ in rplus]}))
+    # (g) hint-only helpers (`prefetch_*`, returning ()): they are handed ESTIMATED positions, which may be anything -- 0
+    #     included -- so a checked subtraction from a value computed from the position needs its own guard
+    for f in FA.lib_fns(include_closures=False):
+        if not f['name'].startswith('prefetch') or f['locals'][0] not in ('()',):
+            continue
+        F = FA.fn(f)
+        F.dom()
+        params = [('param', f['names'].get(str(k), '_%d' % k)) for k in range(2, f['argc'] + 1)]
+        n_sub = 0
+        bad = None
+        for bi, b in enumerate(F.blocks):
+            if bi not in F.reach:
+                continue
+            for s_ in b['s']:
+                rv = s_.get('rv')
+                if not rv or rv['k'] != 'bin' or rv['op'] != 'SubWithOverflow' or any(m.startswith('debug_assert') for m in s_.get('macros', [])):
+                    continue
+                a = norm(F.operand_term(rv['a']))
+                if not any(contains(a, p_) for p_ in params):
+                    continue
+                n_sub += 1
+                sub = norm(F.operand_term(rv['b']))
+                guarded = False
+                for at in path_atoms(F, bi):
+                    if at[0] in ('<', '<=', '!=') and isinstance(at[2], tuple) and (strip_casts(at[1]) == strip_casts(a) or strip_casts(at[2]) == strip_casts(a)
+                                                                                    or any(p_ in (strip_casts(at[1]), strip_casts(at[2])) for p_ in params)):
+                        guarded = True
+                if not guarded and bad is None:
+                    bad = (s_.get('line', ''), '%s - %s' % (show(a)[:40], show(sub)[:20]))
+        key = 'R-PF|g|%s' % fn_key(f)
+        if bad:
+            out.append(Inst('R-PF', key, 'violation', bad[0],
+                            '`%s` subtracts from a value computed from the (estimated) position with no test in front of it (`%s`): for an estimate of 0 the hint path panics in builds with overflow checks, where the exact query answers' % (f['name'], bad[1]), props + ['C04']))
+        elif n_sub:
+            out.append(Inst('R-PF', key, 'ok', f['span'], '%d subtraction(s) from position-derived values, each guarded' % n_sub, props + ['C04']))
     # (d) feature independence: default vs nofeat differ only in prefetch_read_NTA
     NF = facts.get('nofeat')
     if NF is not None:
